@@ -15,7 +15,7 @@ import (
 // ingest and prune over a set of forest instances.  Shared by C06, C09, C10.
 
 type fOp struct {
-	Kind  string     `json:"kind"` // block | undo | verify | ingest | prune | badmodify
+	Kind  string     `json:"kind"` // block | undo | verify | ingest | prune | badmodify | badverify
 	Block *gen.Block `json:"block,omitempty"`
 	K     int        `json:"k,omitempty"`
 	Slots []int      `json:"slots,omitempty"`
@@ -77,6 +77,14 @@ func genForestScenario(rng *rand.Rand, tag uint64, cfgs []InstCfg, o fGenOpts) f
 					// prune a random subset of live slots (those not remembered are ignored by Prune)
 					if sl := pickLiveSubset(rng, m); sl != nil {
 						s.Ops = append(s.Ops, fOp{Kind: "prune", Slots: sl})
+					}
+				case 6:
+					// a proof the forests must refuse although they are asked to remember it (K selects the damage)
+					if sl := pickLiveSubset(rng, m); sl != nil {
+						if len(sl) > 4 {
+							sl = sl[:4]
+						}
+						s.Ops = append(s.Ops, fOp{Kind: "badverify", Slots: sl, K: rng.Intn(4)})
 					}
 				case 5:
 					// a block the map forests must reject: live leaves followed by a hash that is
@@ -247,6 +255,54 @@ func runForest(c *core.Ctx, s fScenario, setupFail failFn, obs fObserver) *World
 				}
 			}
 			c.Count("ops_"+op.Kind, 1)
+		case "badverify":
+			hashes := slotsToHashes(op.Slots)
+			if len(hashes) == 0 {
+				continue
+			}
+			f := w.M.Forest()
+			pr, _ := f.ProofForHashes(hashes)
+			dh := cloneHashes(hashes)
+			bad := cloneProof(pr)
+			switch {
+			case op.K == 0 || len(bad.Proof) == 0: // a wrong leaf hash
+				dh[oi%len(dh)] = rm.FreshHash(s.Tag, uint64(oi)+3<<20)
+			case op.K == 1: // a damaged proof hash
+				bad.Proof[oi%len(bad.Proof)][oi%32] ^= 0x40
+			case op.K == 2: // a missing proof hash
+				bad.Proof = bad.Proof[:len(bad.Proof)-1]
+			default: // a true hash claimed at its sibling's position
+				bad.Targets[oi%len(bad.Targets)] ^= 1
+			}
+			if _, err := u.Verify(w.Stump, cloneHashes(dh), cloneProof(bad)); err == nil {
+				continue // the damage happens to leave a valid proof (e.g. the sibling is a target too)
+			}
+			for _, in := range w.Insts {
+				err := in.U.Verify(cloneHashes(dh), cloneProof(bad), true)
+				if err == nil {
+					fail(in.Cfg.Kind+".Verify(remember)", "accepted-a-proof-the-stand-alone-verifier-rejects", "", fmt.Sprintf("%s: hashes %s %s", in.Name, hashesStr(dh), proofStr(bad)))
+				}
+				if in.MP != nil {
+					// the same through the partial-proof entry point, with whatever it reports missing
+					miss := in.MP.GetMissingPositions(cloneU64(bad.Targets))
+					var ph []Hash
+					for _, p := range miss {
+						if nd := f.Nodes[p]; nd != nil {
+							ph = append(ph, nd.Hash)
+						} else {
+							ph = append(ph, rm.FreshHash(s.Tag, p))
+						}
+					}
+					if op.K == 0 || op.K == 3 { // the damage is in the claim itself, so this call must be refused too
+						if err := in.MP.VerifyPartialProof(cloneU64(bad.Targets), cloneHashes(dh), ph, true); err == nil {
+							if ok, _ := claimTrue(f, claim{Hashes: dh, Targets: bad.Targets}); !ok {
+								fail(in.Cfg.Kind+".VerifyPartialProof(remember)", "accepted-a-false-claim", "", fmt.Sprintf("%s: hashes %s targets %v", in.Name, hashesStr(dh), bad.Targets))
+							}
+						}
+					}
+				}
+			}
+			c.Count("ops_refused_verify_remember", 1)
 		case "badmodify":
 			hashes := slotsToHashes(op.Slots)
 			if len(hashes) == 0 {
